@@ -1599,7 +1599,7 @@ void BSGeometryMeshData::Sync(NiStreamReversible& stream) {
 	for (uint32_t v = 0; v < nVertices; v++) {
 		if (stream.GetMode() == NiStreamReversible::Mode::Reading) {
 			auto unpack = [&](const float posScale) -> float {
-				int16_t val;
+				int16_t val = 0;
 				stream.Sync(val);
 				if (val < 0)
 					return static_cast<float>((val / 32768.0) * scale * posScale);
